@@ -249,6 +249,9 @@ func (ps *parser) parseFrame(steps []*Step, i int, host string, isInit bool, dep
 			if ps.aborting {
 				return endAbort()
 			}
+		case s.A == "pcall":
+			sc.ops = append(sc.ops, &Op{A: "pcall", Target: "P", V: s.V, Gl: cstr(s.C, "oc")})
+			i++
 		case sendOps[s.A]:
 			sc.ops = append(sc.ops, &Op{A: s.A, Dest: s.Y, Amt: s.V, Gl: cstr(s.C, "gl"), Fee: cstr(s.C, "fee"), Al: cstr(s.C, "al")})
 			i++
@@ -328,6 +331,8 @@ func (w *World) compile(tx *Tx) *Program {
 		c.prog.txData = u.code
 	case tx.Body != nil:
 		c.prog.txData = idWord(tx.Body.id)
+	case tx.Kind == "pbad":
+		c.prog.txData = badPoint()
 	case tx.Kind == "sdata":
 		c.prog.txData = append([]byte("Suicide"), w.addrOf(tx.Benef).Bytes()...)
 	case tx.Kind == "kquai":
@@ -475,6 +480,28 @@ func (c *compiler) emitOp(a *asm, s *Script, o *Op, blobs *[]blob) {
 		switch o.A {
 		case "wp":
 			c.emitOp(a, s, c.wpOp(o), blobs)
+		case "pcall":
+			// CALL to the precompile: "ok" empty input, "bad" a point off the curve, "lowgas" less than RequiredGas (even with the stipend)
+			in := []byte{}
+			gas := uint64(precompileCallGas)
+			switch o.Gl {
+			case "bad":
+				in = badPoint()
+				a.storeMem(0, in)
+			case "lowgas":
+				gas = 100
+			}
+			a.pushU(0) // retSize
+			a.pushU(0)
+			a.pushU(uint64(len(in)))
+			a.pushU(0)
+			a.pushBig(amount(o.V))
+			a.pushRaw(w.addrOf("P").Bytes())
+			a.pushU(gas)
+			a.markHere(markOp, s, o)
+			a.op(vm.CALL)
+			a.markHere(markAfter, s, o)
+			a.op(vm.JUMPDEST)
 		case "sstore":
 			a.pushU(1)
 			a.pushU(1)
@@ -686,7 +713,15 @@ func (w *World) create2Salt(creator common.Address, code []byte) []byte {
 	}
 }
 
+// badPoint is a bn256ScalarMul input whose point (1, 1) is not on the curve: the precompile returns an error
+func badPoint() []byte {
+	in := make([]byte, 96)
+	in[31], in[63], in[95] = 1, 1, 1
+	return in
+}
+
 const (
+	precompileCallGas = 30000
 	plainCallGas  = 40000 // covers CallNewAccountGas for a transfer to a fresh account
 	lockupCallGas = 60000
 	scriptBaseGas = 5000
@@ -706,6 +741,8 @@ func need(s *Script) uint64 {
 			if o.Sub != nil {
 				n += need(o.Sub) + need(o.Sub)/32
 			}
+		case "pcall":
+			n += callOverhead + precompileCallGas
 		case "wp":
 			n += 3000
 		case "create", "create2":
